@@ -224,6 +224,30 @@ def run(ctx):
               "orc_opcode_register_static keeps only %s characters of the set name although OrcOpcodeSet.prefix holds %d: a set registered under a "
               "%d-character name is not found by orc_opcode_set_get, so its rules can never be attached" % (cap, plen[0] - 1, plen[0] - 1), line=site.line)
 
+    # ---- D6b: a set is found by its whole name ------------------------------------------------------
+    sg = db.func("orc_opcode_set_get", "orcopcode")
+    fsg = Facts(sg)
+    rets6 = [r for r in sg.walk() if r.k == "ReturnStmt" and r.c and r.c[0] is not None and strip_casts(r.c[0]).v is None and unparse(strip_casts(r.c[0])) not in ("(void *)0",)]
+    if not rets6:
+        raise AnalysisBroken("orc_opcode_set_get: no non-NULL return")
+    NM = sg.params[0]["name"]
+    for r in rets6:
+        exact = False
+        how = []
+        for x in fsg.conds(r):
+            if x[0] == "switch":
+                continue
+            e = strip_casts(x[0])
+            if e.k == "CallExpr" and e.name in ("strcmp", "strncmp", "strcasecmp", "memcmp"):
+                how.append(e.name)
+                if e.name == "strcmp" and x[1] is False and any(unparse(strip_casts(a)) == NM for a in e.args()) and \
+                        any(unparse(strip_casts(a)).endswith(".prefix") or unparse(strip_casts(a)).endswith("->prefix") for a in e.args()):
+                    exact = True
+        rep.check(exact, "D6-PREFIX-CAPACITY", where(sg), "lookup-is-exact",
+                  "a set is returned only when strcmp (prefix, name) == 0",
+                  "orc_opcode_set_get returns a set without an exact comparison of the whole name (comparisons on the path: %s): a set whose name is a "
+                  "prefix of the requested one (or the built-in \"sys\") is handed out instead, and the application's rules are attached to the wrong set" % how, line=r.line)
+
     # ---- D3 ------------------------------------------------------------------
     ee = db.func("orc_executor_emulate", "orcexecutor")
     src = [unparse(n.c[1]) for n in ee.walk() if n.k == "BinaryOperator" and n.op == "=" and unparse(n.c[0]).endswith(".emulateN")]
